@@ -4,6 +4,7 @@ from hypothesis import strategies as st
 from vf import gens
 from vf.runner import hyp_run, run_cases, guard, fail, exc_failure
 
+THOROUGH_SCALE = 8      # multiplies every generated-case budget of the thorough tier
 RULE = ("reference cell (7 families, triclinic included) x grain rotation R (uniform / identity / axis / small) x "
         "stretch S = Q diag(1+e_i) Q^T with |e_i| drawn at magnitude 1e-6 / 1e-3 / 1e-1 (or S=I) x m in "
         "{-1,-0.5,0,0.5,1,1.5,2} x reference given as cell parameters or as another grain with its own orientation; "
